@@ -1,2 +1,4 @@
 import Proofs.Map
 import Proofs.Toks
+import Proofs.Structure
+import Proofs.Range
